@@ -1,12 +1,14 @@
 """re-indexing engine: C06-C11"""
 TB = ["coq/Model/Reindex.v + coq/Check/CheckReidx.v: hand-written mirror of the three index spaces, the edit API (returned ids, asserts, index panics), "
-      "reorganise_generic / get_mapping_generic and of which reference kinds encode_internal rewrites (tied to /repo by the correspondence run)",
+      "reorganise_generic / get_mapping_generic and of which reference kinds encode_internal rewrites (tied to /repo by the correspondence run; for reorganise_generic / "
+      "get_mapping_generic / recalculate_ids additionally by translation: translator/src/reorg.rs turns their statements into Gallina -- Vec::remove / push / insert, += / -=, the if / else-if "
+      "tree; u32 / usize as nat, an out-of-range Vec::remove as 'state unchanged' -- and Proofs/GenReorgProofs.v proves the result equal to the model)",
       "the abstract specification (stable handles id -> entity, Wasm's index-space rule `designates`) in CheckReidx.v"]
 NOTE = ("Trusted: Coq kernel + vm_compute; the harness (module generator, fingerprint scheme: every entity carries a unique marker, every reference is a numbered site "
         "read back from the real output with wasmparser; wasmparser's validator for 'the output validates'). Modelled, not verified: mod.rs reorganise_generic, "
         "get_mapping_generic, recalculate_ids, add_import/add_*/delete_*/convert_* and the index rewriting of encode_internal.")
 def mk(pid, thms, rule, text, n=1600, tn=30000):
-    return dict(engine="reindex", gen=(["GenRefers"] if pid in ("C06", "C07", "C08") else []), thorough_flags=["--exhaustive"], check_targets=["Check/CheckReidx.vo"], proof_targets=["Props/%s.vo" % pid],
+    return dict(engine="reindex", gen=(["GenRefers", "GenReorg"] if pid == "C06" else ["GenRefers"] if pid in ("C07", "C08") else []), thorough_flags=["--exhaustive"], check_targets=["Check/CheckReidx.vo"], proof_targets=["Props/%s.vo" % pid],
                 theorems=[(pid, t) for t in thms], quick=dict(n=n), thorough=dict(n=tn), per_shard=300,
                 rule=rule, level_text=text, level_note=NOTE, trusted_base=TB,
                 technique="Coq theorems about the index-space model + abstract handle specification evaluated in Coq on the real output + refutation witnesses",
@@ -17,9 +19,10 @@ GEN = ("generated base modules (0-5 imports of all five kinds interleaved, 1-4 l
        "function-list and expression element segments, active data segments with constant and global.get offsets) and histories of 0-7 edits (add local/import, delete, local->import, "
        "import->local with built bodies that carry references, iterator-level add_global, add/delete export, add_data) using the ids the API really returned; references in original, built and injected code (injected at the start of a probe function and, in half of the cases, in front of its final `end`); ")
 PROPS = {
- "C06": mk("C06", ["C06_reorganise_closed_form", "C06_index_space_closed_form", "C06_mapping_position", "C06_mapping_injective", "C06_mapping_absent", "C06_function_operator_tables_exact", "C06_wf_is_an_invariant_of_every_edit", "C06_wf_holds_of_every_base_module", "C06_binding_after_any_history", "C06_binding_on_the_emitted_module", "C06_returned_id_stays_bound"],
+ "C06": mk("C06", ["C06_reorganise_closed_form", "C06_index_space_closed_form", "C06_mapping_position", "C06_mapping_injective", "C06_mapping_absent", "C06_function_operator_tables_exact", "C06_wf_is_an_invariant_of_every_edit", "C06_wf_holds_of_every_base_module", "C06_binding_after_any_history", "C06_binding_on_the_emitted_module", "C06_returned_id_stays_bound",
+                   "C06_translated_reorganise_is_the_model", "C06_translated_recalculate_ids_is_index_space"],
            GEN + "non-trivial = history non-empty and at least one reference site",
-           "Proof on the model: a well-formedness invariant of the three index spaces is preserved by every edit, and after ANY history, with no premise left, every live id is mapped to the index at which Wasm's index rule finds that very entity in the emitted module (Proofs/ReidxInv.v), on top of the closed form of reorganise_generic and the id-map theorems. What the model cannot carry (which reference kinds the real encoder rewrites, validity of the bytes) is decided per history by evaluating, in Coq, "
+           "The loop bodies of reorganise_generic / get_mapping_generic are translated from /repo/src/ir/module/mod.rs into Gallina on every check (Gen/GenReorg.v) and proved equal, for all arguments, to the model's rstep / reorganise / mapping (C06_translated_reorganise_is_the_model), so the index-space theorems speak about the code as it is now. Proof on the model: a well-formedness invariant of the three index spaces is preserved by every edit, and after ANY history, with no premise left, every live id is mapped to the index at which Wasm's index rule finds that very entity in the emitted module (Proofs/ReidxInv.v), on top of the closed form of reorganise_generic and the id-map theorems. What the model cannot carry (which reference kinds the real encoder rewrites, validity of the bytes) is decided per history by evaluating, in Coq, "
            "the abstract handle specification against the decoded real output (every function reference kind, import-section order via Wasm's index rule, validity), with no known class left (D02 -- import section order vs index order --, D05 -- element expression items / offsets and table initialisers never re-indexed --, D06 / D26 -- deleted items that stayed in the index space -- and D07 -- ImportsID used as FunctionID -- are repaired: C06_former_D02_witness_holds, C06_former_D05_witness_holds, C06_former_D06_witness_holds, C09_former_D26_witness_holds, C10_former_D07_witness_holds)."),
  "C07": mk("C07", ["C07_index_space_closed_form", "C07_mapping_position", "C07_global_operator_tables_exact", "C07_wf_is_an_invariant_of_every_edit", "C07_wf_holds_of_every_base_module", "C07_binding_after_any_history", "C07_binding_on_the_emitted_module"],
            GEN + "biased to globals (global.get in code / initialisers / data offsets, global exports)",
